@@ -197,6 +197,53 @@ example :
     deStream .utf8 ty (lexemes d) = deTape .utf8 ty (tapeOf d) := by
   refine ⟨by rfl, by rfl, by rfl⟩
 
+/-- A variable `@name` (or an interpolated expression `@[ … ]`) is one unquoted scalar for both parsers (C01: `Scal.ValidX`,
+C07: `C07_slice_faithful_x`), and both deserializer paths read it as an ordinary string: a `String` / `any` target gets the
+decoded bytes, `@` included; nothing is evaluated or substituted. -/
+theorem C02_variable_is_string (enc : Enc) (r : Bytes) (o : Op) (toks : List TTok) (i : Nat)
+    (hq : toks[i]? = some (.unq (64 :: r))) (rest : List RTok) :
+    tde enc toks 1 .str (.opval o i) = .ok (.str (decode enc (64 :: r))) ∧
+    sde enc 1 .str (.unq (64 :: r)) o rest = .ok (.str (decode enc (64 :: r)), rest) ∧
+    tde enc toks 1 .any (.opval o i) = .ok (.str (decode enc (64 :: r))) ∧
+    sde enc 1 .any (.unq (64 :: r)) o rest = .ok (.str (decode enc (64 :: r)), rest) := by
+  have h1 := C02_scalar_dispatch enc .str rfl (64 :: r) o 1 (by simp [Ty.wrapDepth]) toks i (Or.inl hq) (.unq (64 :: r)) (Or.inl rfl) rest
+  have h2 := C02_scalar_dispatch enc .any rfl (64 :: r) o 1 (by simp [Ty.wrapDepth]) toks i (Or.inl hq) (.unq (64 :: r)) (Or.inl rfl) rest
+  exact ⟨h1.1, h1.2, h2.1, h2.2⟩
+
+/-- The one scalar shape the full-syntax end-to-end theorems exclude (`SafeScalX`): an UNQUOTED scalar that begins with
+`?`.  The tape parser reads `?b` as one scalar; the reader takes the `?` for the operator `Exists` wherever such a scalar
+stands (`C07_known_question_scalar`, instantiated here: its token list is not the document's lexeme list).  From the
+BYTES `a=?b` + newline into `st(a:str)`: the tape path returns `a = "?b"`, the reader path refuses (the value token is
+followed by a key without a value). -/
+theorem C02_question_scalar_paths_differ :
+    (∃ (T : List TextTape.Tok) (b : Bool),
+      TextTape.parse Jomini.TextE2E.bytesQuestion = .ok T b ∧
+      (TextReader.sliceTokens Jomini.TextE2E.bytesQuestion).out = .end_ ∧
+      deTape .utf8 Jomini.TextE2E.tyQuestion (Jomini.TextE2E.toTextDeTape T) = .ok (.st [([97], .str [63, 98])]) ∧
+      deStream .utf8 Jomini.TextE2E.tyQuestion
+          ((TextReader.sliceTokens Jomini.TextE2E.bytesQuestion).toks.map Jomini.TextE2E.toRTok) = .error .other) ∧
+    -- C07_known_question_scalar on this document: `a`, `=`, then the scalar `?b`
+    (TextReader.sliceTokens Jomini.TextE2E.bytesQuestion).toks ≠
+      ([(([] : Bytes), TextReader.Lexeme.scalar false [97]), ([], .op .eq), ([], .scalar false [63, 98])]).map (fun x => x.2.tok) := by
+  have h2 : deStream .utf8 Jomini.TextE2E.tyQuestion
+      ((TextReader.sliceTokens Jomini.TextE2E.bytesQuestion).toks.map Jomini.TextE2E.toRTok) = .error .other := by
+    rw [Jomini.TextE2E.question_lex.1]; rfl
+  refine ⟨⟨_, _, Jomini.TextE2E.question_parse, Jomini.TextE2E.question_lex.2, by rfl, h2⟩, ?_⟩
+  have hk := (Jomini.Props.C07.C07_known_question_scalar
+    [([], TextReader.Lexeme.scalar false [97]), ([], .op .eq)] [] [] 98 [] [10] false
+    (by
+      refine ⟨.nil, Or.inl ⟨by decide +kernel, ⟨97, [], rfl, by decide, by decide, by decide, by decide⟩,
+        Or.inr ⟨61, _, rfl, by decide +kernel⟩⟩, .nil, ?_, trivial⟩
+      intro _; exact ⟨63, _, rfl, by decide⟩)
+    .nil (by decide) (by intro _ ⟨r', h⟩; simp [TextReader.renderLex, TextReader.Lexeme.text, TextReader.opText] at h)).2
+  simpa [Jomini.TextE2E.bytesQuestion, TextReader.renderLex, TextReader.Lexeme.text, TextReader.opText, TextReader.bomBytes] using hk
+
+/-- a nested object whose FIRST field is a header field (`x={ a=rgb { 1 } b=2 }`, a shape of texttape's full document
+type only): not a semantic obstacle -- from the bytes both models return the same value -- but outside the end-to-end
+theorems, whose carrier `JFields` cannot express it -/
+example : Jomini.TextE2E.bytesAgree (.st [([120], .st [([97], .str), ([98], .u8)])]) Jomini.TextE2E.bytesHdrFirst = true := by
+  decide +kernel
+
 /-- Mixed containers stay outside the document type, the paths differ there: from the BYTES
 `a={ b=1 c d }` into `st(a:map(str))` both parsers succeed, the tape path (synthetic `remainder` key
 with the rest as an array) refuses, the reader path reads `c = d` as a field. -/
